@@ -867,6 +867,34 @@ def oracle(case, obs):
                     v = summary_violation(vals, nd["lenf"], where, "edge-length")
                     if v:
                         return v
+                # set_edge_lengths: the edge length / node age the mode asks for
+                mn = unfr(o["min_len"])
+                if o["mode"] in ("mean-length", "median-length") and vals and all(isinstance(v, Fraction) for v in vals) \
+                        and not nd["is_root"] and not case["cfg"]["ignore_len"]:
+                    sv = sorted(vals)
+                    stat = sum(vals) / len(vals) if o["mode"] == "mean-length" else \
+                        (sv[len(sv) // 2] if len(sv) % 2 else (sv[len(sv) // 2 - 1] + sv[len(sv) // 2]) / 2)
+                    want_len = stat if mn is None else max(stat, mn)
+                    got_len = nd["len"]
+                    if isinstance(got_len, str) or got_len is None or not close(unfr(got_len), want_len):
+                        return ("%s: set_edge_lengths=%r gave the edge of clade %s length %s; the %s of its lengths %s over the %d trees containing it is %s"
+                                % (where, o["mode"], sorted(ls), None if got_len is None else float(unfr(got_len)), o["mode"].split("-")[0],
+                                   [float(x) for x in vals], len(vals), float(want_len)), "set-edge-lengths-length-mode")
+                if o["mode"] in ("mean-age", "median-age") and rooted and not case["cfg"]["ignore_ages"] and nd["age"] is not None \
+                        and not isinstance(nd["age"], str):
+                    from dv import c05_deco
+                    try:
+                        ags = [a[ls] for a in (c05_deco._ages(case["pool"][pi]["tree"]) for pi, _w in spec.occ) if ls in a]
+                    except Exception:
+                        ags = []
+                    if ags:
+                        sa_ = sorted(ags)
+                        stat = sum(ags) / len(ags) if o["mode"] == "mean-age" else \
+                            (sa_[len(sa_) // 2] if len(sa_) % 2 else (sa_[len(sa_) // 2 - 1] + sa_[len(sa_) // 2]) / 2)
+                        if not close(unfr(nd["age"]), stat):
+                            return ("%s: set_edge_lengths=%r gave the node of clade %s age %s; the %s of its ages %s over the %d trees containing it is %s"
+                                    % (where, o["mode"], sorted(ls), float(unfr(nd["age"])), o["mode"].split("-")[0],
+                                       [float(x) for x in ags], len(ags), float(stat)), "set-edge-lengths-age-mode")
         if name == "LenSummaries" and not err:
             for s, mean, med, sd_, rng_, var in out[1]:
                 k = spec.key_of_mask(s, rooted)
@@ -1318,6 +1346,24 @@ def search(ctx, budget_s):
     ctx.notes.append("search: %d merge / maximum-credibility histories through their oracle" % n_shapes)
     if ctx.violations:
         return
+    # decorations (labels, support / age_* / length_* attributes and annotations) through their oracle
+    from dv import c05_deco
+    drng = random.Random(ctx.seed + 6068)
+    dcs = c05_deco.fixed_cases()
+    nd = 0
+    while time.time() - t0 < budget_s * 0.6 and nd < 600:
+        dc = dcs.pop(0) if dcs else c05_deco.gen_case(drng)
+        nd += 1
+        try:
+            dobs = c05_deco.observe(dc)
+        except Exception:
+            continue
+        v = c05_deco.oracle(dc, dobs)
+        if v:
+            ctx.violation(v[0], {"case": dc, "observed": dobs}, key=v[1])
+            if ctx.violations:
+                return
+    ctx.notes.append("search: %d decoration histories through their oracle" % nd)
     cases = probe_cases()
     while time.time() - t0 < budget_s and n < 5000:
         case = cases.pop() if cases else gen_case(rng)
@@ -1342,6 +1388,47 @@ def sample_fn(case, obs):
             "last": obs["steps"][-1][0][:3] if obs["steps"] else None}
 
 
+def wave6_stages(ctx, tier):
+    """decorations (Model/C05Model4.v, dcase_ok) and merges (Model/C05Merge.v, mcase_ok): library vs. Coq model + oracle"""
+    from dv import c05_deco, c05_merge
+    rng = random.Random(ctx.seed + 6066)
+    dcases = c05_deco.fixed_cases() + [c05_deco.gen_case(rng) for _ in range(50 if tier == "quick" else 600)]
+
+    def d_observe(case):
+        obs = c05_deco.observe(case)
+        for kw in case["calls"]:
+            for k in kw:
+                ctx.count("deco-option:" + (k if not (k.endswith("_name") or k.endswith("_dynamic")) else k.split("_")[-1] if k.endswith("_name") else "dynamic"))
+            if not kw:
+                ctx.count("deco-option:(all defaults)")
+        return obs
+
+    def d_to_coq(case, obs):
+        if c05_deco.unrepresentable(obs):
+            ctx.count("deco:unrepresentable value (complex sd, known finding sd-complex): oracle only")
+            return "(mkDcase (mkCfg false true true None) [] [] [] [])"
+        return c05_deco.to_coq(case, obs)
+    core.corr_stage(ctx, dcases, d_observe, d_to_coq, c05_deco.HEADER, "dcase_ok", oracle=c05_deco.oracle,
+                    show_fn="dcase_run", nontrivial=c05_deco.nontrivial, shard=8 if tier == "quick" else 100,
+                    label="decoration correspondence")
+    mrng = random.Random(ctx.seed + 6067)
+    mcases = [c for c in c05_merge.fixed_cases() if c["kind"] == "merge"] + \
+             [c05_merge.gen_merge_case(mrng) for _ in range(24 if tier == "quick" else 300)]
+
+    def m_observe(case):
+        ctx.count("merge-form:" + case["form"])
+        return c05_merge.observe(case)
+
+    def m_to_coq(case, obs):
+        if not c05_merge.merge_representable(obs):
+            ctx.count("merge:unrepresentable summary value: oracle only")
+            e = "(mkDg [] [] [])"
+            return "(mkMcase (mkCfg false true true None) [] [] [] (%s, %s) (%s, %s) %s %s)" % (e, e, e, e, e, e)
+        return c05_merge.merge_to_coq(case, obs)
+    core.corr_stage(ctx, mcases, m_observe, m_to_coq, c05_merge.MERGE_HEADER, "mcase_ok", oracle=c05_merge.oracle,
+                    nontrivial=lambda c, o: True, shard=4 if tier == "quick" else 100, label="merge correspondence")
+
+
 def run(tier, seed, replay=None):
     ctx = core.Ctx("C05", tier, seed)
     ctx.assumptions = [
@@ -1349,7 +1436,9 @@ def run(tier, seed, replay=None):
         "exact rational arithmetic; binary64 rounding is outside the model (frequencies compared within 1e-12, means/variances/scores within 1e-9 relative)",
         "per-tree bipartition records (split bitmask, edge length, node age) are inputs observed from the library's own encoding (C01/C17); the consensus theorems assume each tree's clades are pairwise compatible and distinct - checked on every generated input by case_hyps",
         "log-product scores are modelled as exact products; hpd95 and 5/95 quantiles are outside exact arithmetic and not modelled",
-        "translator tie wave 5 (Gen/SplitDistTa.v, Props/C05Gen.v): trusted are the compiler py/dv/c05_gen_impl3.py and the stated Python meaning of the primitives in coq/Model/C05GenPrims3.v (the tree object from_split_bitmasks returns and the split bitmask each of its nodes presents to summarize_splits_on_tree(is_bipartitions_updated=True)); **split_summarization_kwargs is the configured summarizer record; merge and maximum-credibility history shapes (py/dv/c05_merge.py) are checked by their oracle only",
+        "translator tie wave 5 (Gen/SplitDistTa.v, Props/C05Gen.v): trusted are the compiler py/dv/c05_gen_impl3.py and the stated Python meaning of the primitives in coq/Model/C05GenPrims3.v (the tree object from_split_bitmasks returns and the split bitmask each of its nodes presents to summarize_splits_on_tree(is_bipartitions_updated=True)); **split_summarization_kwargs is the configured summarizer record; maximum-credibility history shapes (py/dv/c05_merge.py) are checked by their oracle",
+        "translator tie wave 6 (Gen/SplitDistDeco.v from py/dv/gen_splitdist_deco.py): SplitDistributionSummarizer.configure with its defaults, _decorate and the decoration statements of summarize_splits_on_tree are compiled from the AST as a second VIEW of the loop body (the first view, Gen/SplitDist.v, keeps support / edge.length / node.age); each view skips the other's statements after checking their shape, and the two act on disjoint parts of a node unless a configured attribute name is 'age', 'label', 'length' or 'annotations' (outside the model). Trusted: the primitives of coq/Model/C05GenPrims4.v (setattr / annotations.drop / add_bound_attribute / add_new, str.format with one field, the fixed-point format with round-half-even on the EXACT rational - the library formats the binary64 value, so at exact decimal ties the harness accepts both neighbours -, kwargs.pop, getattr on the summarizer); sd is represented by its variance (DSqrt), hpd95 / quant_5_95 are opaque",
+        "merge model (coq/Model/C05Merge.v): per-split lists are heap objects named by the dict entry that created them (distribution, attribute, split); hand transcription of count_splits_on_tree / SplitDistribution.update at that level, tied by the merge correspondence run (mcase_ok: digests of both sources before and after, of the result and of a fresh collection); TreeArray.update / extend / __iadd__ / __add__ are taken to act on the distributions as self._split_distribution.update(other._split_distribution) (the four merge forms of the harness); self-update d.update(d) is outside the model",
         "namespaces with vacated bits and trees on a subset of the taxa are outside the property's quantifier: they are run through the correspondence only (the oracle and the namespace hypotheses are skipped for them)",
     ]
     if replay:
@@ -1360,11 +1449,20 @@ def run(tier, seed, replay=None):
             print("oracle:", c05_merge.oracle(r["shape_case"], c05_merge.observe(r["shape_case"])))
             return 0
         case = r["case"]
+        if case.get("kind") == "deco":
+            from dv import c05_deco
+            print("oracle:", c05_deco.oracle(case, c05_deco.observe(case)))
+            return 0
+        if case.get("kind") in ("merge", "mcc"):
+            from dv import c05_merge
+            print("oracle:", c05_merge.oracle(case, c05_merge.observe(case)))
+            return 0
         obs = observe(case)
         print("oracle:", oracle(case, obs))
         return 0
     ok = core.proof_stage(ctx, ["Props/C05.vo"], gen_needed=("BitFns", "Consts", "SplitDist"))
     # translator tie, wave 5 (Gen/SplitDistTa.v: restore_tree, maximum_*_split_support_tree, TreeArray.consensus_tree)
+    # wave 6: + Gen/SplitDistDeco.v (configure, _decorate, the decoration statements) and the merge model
     ok = core.proof_stage(ctx, ["Props/C05Gen.vo"], props_file="Props/C05Gen.v",
                           gen_needed=("BitFns", "Consts", "SplitDist")) and ok
     if not ok:
@@ -1401,5 +1499,6 @@ def run(tier, seed, replay=None):
     core.corr_stage(ctx, cases, observe_counting, to_coq, HEADER, "case2_ok", oracle=oracle,
                     show_fn="case2_run", nontrivial=nontrivial, search=search, shard=32 if tier == "quick" else 120,
                     sample_fn=sample_fn)
+    wave6_stages(ctx, tier)
     return ctx.finish(level="proof",
-                      rule="fixed probe cases + random op histories: 1-40 tree occurrences drawn with skewed multiplicities from a pool of 1-5 trees over 4-12 taxa spanning the namespace, rooted/unrooted/undefined/mixed rooting, dyadic or absent weights, SplitDistribution or TreeArray path, interleaved count/update/query/calc, thresholds k/ntrees or p/q (q<=20), default and None, every set_edge_lengths mode, percentages, labels, collapse, array scores, per-tree scores, split_support_iter, frequency_of_bipartition, topology frequencies; ~15% of the cases use a namespace with vacated bits and/or trees on a subset of the taxa (correspondence only); thorough adds multisets of 3 trees over all 4-taxon shapes x thresholds k/6; a case is non-trivial when >=2 distinct pool trees were counted and some cached frequency lies strictly between 0 and 1; distinct by full case content")
+                      rule="fixed probe cases + random op histories: 1-40 tree occurrences drawn with skewed multiplicities from a pool of 1-5 trees over 4-12 taxa spanning the namespace, rooted/unrooted/undefined/mixed rooting, dyadic or absent weights, SplitDistribution or TreeArray path, interleaved count/update/query/calc, thresholds k/ntrees or p/q (q<=20), default and None, every set_edge_lengths mode (oracle: mean/median-length and mean/median-age against the lengths / ages of exactly the trees containing the clade), percentages, labels, collapse, array scores, per-tree scores, split_support_iter, frequency_of_bipartition, topology frequencies; ~15% of the cases use a namespace with vacated bits and/or trees on a subset of the taxa (correspondence only); thorough adds multisets of 3 trees over all 4-taxon shapes x thresholds k/6; a case is non-trivial when >=2 distinct pool trees were counted and some cached frequency lies strictly between 0 and 1; distinct by full case content; wave 6: + 6 fixed and 50 (thorough 600) random decoration histories (1-6 trees, 1-3 summarize_splits_on_tree calls on the same target drawing every decoration flag, label decimals 0-6, percentages, custom field names, non-dynamic annotations; compared per node: all new instance attributes of node and edge, annotations in order, label) against Model/C05Model4.dcase_ok, and 4 fixed + 24 (thorough 300) merge histories in the four forms against Model/C05Merge.mcase_ok")
